@@ -135,3 +135,76 @@ Proof.
   intros Hs Hle Hlt. unfold poll_poll1. rewrite Hs.
   destruct (N.ltb_spec (now - a) (p_timeout st)) as [H|H]; [reflexivity|lia].
 Qed.
+
+(** * the 16-channel scanner of the model ([poll_run]: what the correspondence check runs) *)
+Lemma map_upd {A B} (f : A -> B) l i x : map f (upd l i x) = upd (map f l) i (f x).
+Proof.
+  revert i; induction l as [|h t IH]; intros [|i]; cbn [upd map]; try reflexivity.
+  rewrite IH. reflexivity.
+Qed.
+
+Lemma shift_feed1_core d now st m :
+  poll_feed1_core (now + d) (shift d st) m =
+  (shift d (fst (poll_feed1_core now st m)), snd (poll_feed1_core now st m)).
+Proof. destruct m; try reflexivity. rewrite !poll_core_dispatch. apply shift_dispatch. Qed.
+
+Definition shift_all (d : N) (s : poll_scanner) : poll_scanner := map (shift d) s.
+
+Lemma nth_error_shift_all d s i :
+  nth_error (shift_all d s) i = option_map (shift d) (nth_error s i).
+Proof.
+  unfold shift_all. revert i; induction s as [|h t IH]; intros [|i]; cbn [map nth_error option_map];
+    try reflexivity. apply IH.
+Qed.
+
+Lemma shift_feed d now s b :
+  poll_feed (now + d) (shift_all d s) b =
+  omap (fun r => (shift_all d (fst r), snd r)) (poll_feed now s b).
+Proof.
+  unfold poll_feed, feed_multi, obind, omap.
+  destruct (g_channel bytes raw_sb raw_d1 b) as [[c|]|]; try reflexivity.
+  rewrite nth_error_shift_all.
+  destruct (nth_error s (N.to_nat c)) as [st|]; cbn [option_map]; [|reflexivity].
+  destruct (raw_ts b) as [m|]; [|reflexivity].
+  unfold poll_feed1. rewrite shift_feed1_core. cbn [fst snd]. unfold shift_all. rewrite map_upd.
+  reflexivity.
+Qed.
+
+Lemma shift_poll d now s c :
+  poll_poll (now + d) (shift_all d s) c =
+  omap (fun r => (shift_all d (fst r), snd r)) (poll_poll now s c).
+Proof.
+  unfold poll_poll, omap. rewrite nth_error_shift_all.
+  destruct (nth_error s (N.to_nat c)) as [st|]; cbn [option_map]; [|reflexivity].
+  rewrite shift_poll1. cbn [fst snd]. unfold shift_all. rewrite map_upd. reflexivity.
+Qed.
+
+Lemma shift_reset d s : poll_reset (shift_all d s) = shift_all d (poll_reset s).
+Proof.
+  unfold poll_reset, reset_multi, shift_all. rewrite !map_map. apply map_ext. intros st. reflexivity.
+Qed.
+
+Theorem clock_origin_irrelevant_16 d h : forall now s,
+  poll_run (now + d) (shift_all d s) h =
+  omap (fun r => let '(now', s', outs) := r in (now' + d, shift_all d s', outs)) (poll_run now s h).
+Proof.
+  induction h as [|o h IH]; intros now s; [reflexivity|].
+  cbn [poll_run]. destruct o as [b|c| |dt]; cbn [poll_step].
+  - rewrite shift_feed. destruct (poll_feed now s b) as [[s1 o1]|]; cbn [omap obind fst snd]; [|reflexivity].
+    rewrite IH. destruct (poll_run now s1 h) as [[[n2 s2] outs]|]; reflexivity.
+  - rewrite shift_poll. destruct (poll_poll now s c) as [[s1 o1]|]; cbn [omap obind fst snd]; [|reflexivity].
+    rewrite IH. destruct (poll_run now s1 h) as [[[n2 s2] outs]|]; reflexivity.
+  - cbn [obind]. rewrite shift_reset, IH.
+    destruct (poll_run now (poll_reset s) h) as [[[n2 s2] outs]|]; reflexivity.
+  - cbn [obind]. replace (now + d + dt) with (now + dt + d) by lia. rewrite IH.
+    destruct (poll_run (now + dt) s h) as [[[n2 s2] outs]|]; reflexivity.
+Qed.
+
+(** a new 16-channel scanner stores no instant: what it reports does not depend on its start *)
+Corollary new_scanner_any_start_16 d t h now :
+  omap snd (poll_run (now + d) (poll_new_scanner t) h) = omap snd (poll_run now (poll_new_scanner t) h).
+Proof.
+  change (poll_new_scanner t) with (shift_all d (poll_new_scanner t)) at 1.
+  rewrite clock_origin_irrelevant_16.
+  destruct (poll_run now (poll_new_scanner t) h) as [[[n2 s2] outs]|]; reflexivity.
+Qed.
